@@ -17,7 +17,8 @@
 //    far as left operand, and the loop continues after an operator applied;
 //  * when nothing applies the expression ends where that round of attempts started, and its value is the
 //    value built so far.
-// Bounded: at most 2 operator applications in total (recursion depth and loop rounds follow from it).
+// Bounded: at most 1 operator application in total (2 in the thorough variant), operands nest one level deep (an operand's own operators
+// are postfix ones; prefix / infix operators inside an operand are not applied by the stub).
 
 use super::fw::*;
 use crate::input::{self, InputRef};
@@ -32,8 +33,7 @@ type E8 = X<VS>;
 type CP<'p> = input::Checkpoint<'static, 'p, I8, usize>;
 type CU<'p> = input::Cursor<'static, 'p, I8>;
 
-pub const LV: usize = 4;
-pub const MAX_APPS: usize = 2;
+pub const LV: usize = 2;
 /// Ghost bookkeeping of the stub table (lives in the harness frame; the stub holds a raw pointer to it).
 pub struct OpGhost {
     pub depth: usize,
@@ -79,6 +79,8 @@ impl OpGhost {
 #[derive(Clone, Copy)]
 pub struct AnyOp {
     pub g: *mut OpGhost,
+    /// harness bound: operator applications in total
+    pub max_apps: usize,
 }
 impl AnyOp {
     fn g(&self) -> &mut OpGhost {
@@ -141,7 +143,7 @@ impl Operator<'static, I8, u16, E8> for AnyOp {
         g.last_pos[d] = inp.cursor;
         g.last_applied[d] = false;
         g.val[d] = None;
-        let applies = g.apps < MAX_APPS && d + 1 < LV && ch::any_bool();
+        let applies = g.apps < self.max_apps && d + 1 < LV && ch::any_bool();
         if !applies || !Self::consume(inp) {
             return Err(());
         }
@@ -194,7 +196,7 @@ impl Operator<'static, I8, u16, E8> for AnyOp {
         if d == 0 {
             g.end_pos0 = inp.cursor;
         }
-        let applies = g.apps < MAX_APPS && ch::any_bool();
+        let applies = g.apps < self.max_apps && ch::any_bool();
         if !applies || !Self::consume(inp) {
             return Err(lhs);
         }
@@ -234,7 +236,7 @@ impl Operator<'static, I8, u16, E8> for AnyOp {
         g.last_kind[d] = 3;
         g.last_pos[d] = inp.cursor;
         g.last_applied[d] = false;
-        let applies = g.apps < MAX_APPS && d + 1 < LV && ch::any_bool();
+        let applies = g.apps < self.max_apps && d + 1 < LV && ch::any_bool();
         if !applies || !Self::consume(inp) {
             return Err(lhs);
         }
@@ -282,14 +284,14 @@ impl Operator<'static, I8, u16, E8> for AnyOp {
 }
 
 /// `atom.pratt(table)` with the stub table: the driver's contract (see the head of this file).
-pub fn h_pratt_loop<M: VMode>() {
+pub fn h_pratt_loop<M: VMode, const APPS: usize>() {
     run::<u8, VS, (), _>(|inp, s0| {
         inp.state.quiet = true;
         let mut ghost = OpGhost::new();
         let mut atom = anyp_multi::<I8, E8>(0, 3);
         atom.progress = true;
         atom.ok_offers = false;
-        let p = atom.pratt(AnyOp { g: &mut ghost });
+        let p = atom.pratt(AnyOp { g: &mut ghost, max_apps: APPS });
         let r = p.gov::<M>(inp);
         let s = snap(inp);
         let g = &ghost;
@@ -297,9 +299,14 @@ pub fn h_pratt_loop<M: VMode>() {
         vassert!(g.prefix_attempts >= 1 && g.first_prefix_pos == s0.pos, "C09/pratt_loop.expression-starts-with-a-prefix-attempt-at-the-entry-position");
         let a0 = lg(inp, 0);
         if r.is_ok() {
-            vcover!(g.infix_applied == 2, "pratt loop: two infix operators");
-            vcover!(g.prefix_applied == 1 && g.infix_applied == 1, "pratt loop: prefix and infix");
-            vcover!(g.postfix_applied == 1 && g.prefix_applied == 1, "pratt loop: prefix and postfix");
+            if APPS >= 2 {
+                vcover!(g.infix_applied == 2, "pratt loop: two infix operators");
+                vcover!(g.prefix_applied == 1 && g.infix_applied == 1, "pratt loop: prefix and infix");
+                vcover!(g.postfix_applied == 1 && g.prefix_applied == 1, "pratt loop: prefix and postfix");
+            }
+            vcover!(g.prefix_applied == 1, "pratt loop: a prefix operator applied");
+            vcover!(g.infix_applied == 1, "pratt loop: an infix operator applied");
+            vcover!(g.postfix_applied == 1, "pratt loop: a postfix operator applied");
             vcover!(g.apps == 0, "pratt loop: a single atom");
             vcover!(g.nested_seen, "pratt loop: operator attempts inside an operand");
             // the expression ends where the last round of attempts at the outer level started
@@ -343,8 +350,10 @@ impl<M: VMode> VModePeek<M> {
 }
 
 harnesses! {
-    #[kani::unwind(5)]
-    pratt_loop_emit_b2 = h_pratt_loop::<Emit>;
-    #[kani::unwind(5)]
-    pratt_loop_check_b2 = h_pratt_loop::<Check>;
+    #[kani::unwind(3)]
+    pratt_loop_emit_b1 = h_pratt_loop::<Emit, 1>;
+    #[kani::unwind(3)]
+    pratt_loop_check_b1 = h_pratt_loop::<Check, 1>;
+    #[kani::unwind(4)]
+    pratt_loop_emit_b2_t = h_pratt_loop::<Emit, 2>;
 }
